@@ -298,6 +298,9 @@ def transpose2d(op, input):
     out_data = op(input._data)
     out_scale = input._scale
     out_axis = input.axis
+    if input.ndim < 2:
+        # Tensors with less than two dimensions are returned as is
+        return QBytesTensor(input.qtype, out_axis, input.size(), input.stride(), out_data, out_scale)
     # Manually reverse size and stride because we cannot trust the out_data shape
     dim0, dim1 = input.size()
     out_size = torch.Size([dim1, dim0])
